@@ -919,6 +919,8 @@ class Interp:
                 return not isinstance(op, ast.Is)
             if isinstance(a, (bool, M.ClassInfo)) and isinstance(b, (bool, M.ClassInfo)):
                 return (a is b) == isinstance(op, ast.Is)
+            if isinstance(a, (list, dict)) and isinstance(b, (list, dict)):
+                return (a is b) == isinstance(op, ast.Is)      # identity of tracked containers
             return None
         if isinstance(op, (ast.In, ast.NotIn)):
             if isinstance(b, M._StringLetters):
